@@ -1126,6 +1126,13 @@ def _file_layer(ctx) -> list[Inst]:
                     msg = (f"{lib}(..., allow_nan=False) raises ValueError for inf / nan inside the content (free-form "
                            f"extras may hold them, e.g. an unreachable cost): saving fails and leaves a truncated file, "
                            f"while the same content round-trips through the other format")
+                if k.arg == 'allow_unicode' and isinstance(k.value, ast.Constant) and k.value.value is True \
+                        and lib.startswith('yaml.'):
+                    verdict = 'violation'
+                    msg = (f"{lib}(..., allow_unicode=True) writes every 'printable' non-ASCII character raw; PyYAML counts "
+                           f"the Unicode line breaks U+0085 / U+2028 / U+2029 among them and its reader folds a raw break "
+                           f"inside a quoted scalar into a space: a name or extras value containing one comes back "
+                           f"changed from .yml/.yaml (the default escapes them and round-trips)")
             if verdict == 'ok' and odd:
                 verdict, msg = 'unproven', f'{lib} is given unrecognised options {odd}'
             if verdict == 'ok' and lib == 'yaml.load':
